@@ -44,6 +44,7 @@ type LoopGhost struct {
 }
 
 type LoopSpec struct {
+	Snaps      []string // named snapshots of the heap taken at loop entry
 	Ghosts     []*LoopGhost
 	Lets       []GhostOut
 	Invariants []Clause
@@ -60,6 +61,7 @@ type Contract struct {
 	Theory    string // abstract | concrete | ""
 	Requires  []Clause
 	Ensures   []Clause
+	Lemmas    []Clause // post-conditions assumed without proof (pencil-and-paper lemma), listed as assumptions
 	Assumes   []Clause // assumed at entry when verifying (listed in assumptions), NOT required from callers
 	Modifies  []string
 	HasMod    bool
@@ -247,6 +249,8 @@ func (sp *Spec) loadFile(path, prefix string) error {
 			cur.Requires = append(cur.Requires, parseClause(rest, src))
 		case "ensures":
 			cur.Ensures = append(cur.Ensures, parseClause(rest, src))
+		case "assumed-ensures":
+			cur.Lemmas = append(cur.Lemmas, parseClause(rest, src))
 		case "assume":
 			cur.Assumes = append(cur.Assumes, parseClause(rest, src))
 		case "decreases":
@@ -329,6 +333,8 @@ func (sp *Spec) loadFile(path, prefix string) error {
 			case "modifies":
 				ls.HasMod = true
 				ls.Modifies = append(ls.Modifies, parseList(r3)...)
+			case "snap":
+				ls.Snaps = append(ls.Snaps, strings.Fields(r3)...)
 			case "ghost":
 				// loop N ghost name type [:= init]
 				name, r4 := splitWord(r3)
